@@ -5,8 +5,24 @@ from vlib import core
 from vlib.core import cz, cnat, cbool, copt, clist
 
 MANIFEST = dict(
-    text='TODO',
-    note='TODO',
+    text='Theorems (Coq, all histories of create / new-proxy / release / drop / call events from any number of '
+         'client processes, interleaved at request grain, unbounded): refcount(id) = live proxies to id + creations '
+         'in progress; an object is in the server table iff that number is >= 1 and is removed exactly by the decref '
+         'that brings it to 0; untouched referents never change; a call is executed iff the ident is live and the '
+         'method exposed, and then replies and mutates exactly like the same method on a local list/dict/Value '
+         '(error cases included), nothing else changes; any request sequence from any (misbehaving) clients keeps '
+         'the tables consistent (counts >= 1, unknown/zero idents refused); a failed handshake reads no request and '
+         'changes nothing. Tie: Server.incref/decref/create arithmetic and the try/except skeletons of '
+         'serve_client/handle_request are regenerated from managers.py on every run and proved to compute the '
+         'model; exposed sets come from the real Server.create. Correspondence: real Server in-process with scripted '
+         'connections, real proxies against the real server threads, (thorough) real manager and client processes. '
+         'Two parts of the statement are REFUTED on the pinned tree (Iterator proxies; results of proxy-returning '
+         'methods through a proxy passed to another process are leaked) and reported as alarms.',
+    note='Trusted: Coq kernel; translate/kernels/manager.py (shallow translation of the refcount statements, '
+         'statement-text -> primitive table for the skeletons, registry probe by importing the working tree); '
+         'the meaning given to the 33 primitives in Model/Manager.v; harness/mgr_driver.py (fake connection, ident '
+         'renaming, canonicalisation of replies); CPython list/dict semantics as written in Manager.apply_local '
+         '(checked against real objects only through the correspondence). All theorems Closed under the global context.',
     technique='Coq proof over translator-regenerated kernels and control skeletons + differential correspondence',
     ref='5.20',
 )
@@ -571,15 +587,168 @@ def correspond_client(res, n):
     return late
 
 
+# ------------------------------------------------- real processes (thorough tier)
+def gen_procs_case(rng):
+    case = []
+    owners = []      # believed owner pid per live proxy
+    kinds = []
+    pids = [10, 11, 12]
+    forked = []
+    for _ in range(rng.randint(6, 18)):
+        r = rng.random()
+        n = len(owners)
+        if r < 0.18 or n == 0:
+            typ = rng.choice(['list', 'dict', 'Value', 'Shelf'])
+            args = {'list': [zl(rng)], 'Shelf': [zl(rng)], 'dict': [zd(rng)], 'Value': [z(rng), z(rng)]}[typ]
+            case.append(['create', 10, typ, args])
+            owners.append(10)
+            kinds.append((typ, True))
+        elif r < 0.36:
+            k = rng.randrange(n)
+            pid = rng.choice(pids + forked)
+            case.append(['copy', k, pid])
+            owners.append(pid)
+            kinds.append((kinds[k][0], False))
+        elif r < 0.52:
+            k = rng.randrange(n)
+            case.append(['drop', k])
+            owners.pop(k)
+            kinds.pop(k)
+        elif r < 0.57 and len(forked) < 2:
+            pid = 13 + len(forked)
+            case.append(['fork', pid])
+            for i in range(n):
+                if owners[i] == 10:
+                    owners.append(pid)
+                    kinds.append((kinds[i][0], False))
+            forked.append(pid)
+        elif r < 0.62 and forked:
+            pid = forked.pop(rng.randrange(len(forked)))
+            case.append(['exit', pid])
+            keep = [i for i in range(n) if owners[i] != pid]
+            owners[:] = [owners[i] for i in keep]
+            kinds[:] = [kinds[i] for i in keep]
+        elif r < 0.66:
+            case.append(['intruder', rng.choice(['wrong_key', 'no_key'])])
+        else:
+            k = rng.randrange(n)
+            kind = kinds[k][0]
+            pool = {'list': LIST_M, 'Shelf': LIST_M + ['clone', 'clone'], 'ShelfRef': LIST_M,
+                    'dict': DICT_M, 'Value': ['get', 'set']}[kind]
+            meth = rng.choice(pool)
+            args = gen_args(rng, meth, kind)
+            case.append(['call', k, meth, args])
+            if kind == 'Shelf' and meth == 'clone' and not args and kinds[k][1]:
+                owners.append(owners[k])
+                kinds.append(('list', True))
+    return case
+
+
+BOUNDARY_PROCS = [
+    # one referent, three processes, dropped in two different orders; an intruder in between
+    [['create', 10, 'list', [['l', [1, 2]]]], ['copy', 0, 11], ['copy', 1, 12], ['call', 1, 'append', [['z', 5]]],
+     ['call', 2, 'pop', []], ['intruder', 'wrong_key'], ['intruder', 'no_key'], ['drop', 0],
+     ['call', 0, '__len__', []], ['drop', 1], ['call', 0, '__getitem__', [['z', 0]]], ['drop', 0]],
+    [['create', 10, 'dict', [['d', [[1, 2]]]]], ['copy', 0, 11], ['copy', 0, 12], ['drop', 2], ['drop', 1],
+     ['call', 0, 'items', []], ['drop', 0]],
+    # fork with proxies, orderly exit of the child
+    [['create', 10, 'list', [['l', [3]]]], ['create', 10, 'Value', [['z', 0], ['z', 4]]], ['fork', 13],
+     ['call', 2, 'append', [['z', 1]]], ['call', 3, 'set', [['z', 9]]], ['drop', 0], ['drop', 0],
+     ['call', 1, 'get', []], ['exit', 13]],
+]
+
+
+def procs_to_model(case, outs):
+    """fork / exit / intruder become batches of model operations (owners come from the driver)"""
+    mcase = []
+    owners = []
+    for op, o in zip(case, outs):
+        if op[0] == 'fork':
+            mcase.append(['batch', [['copy', k, op[1]] for k, w in enumerate(owners) if w == 10]])
+        elif op[0] == 'exit':
+            mcase.append(['batch', [['drop', k] for k in reversed(range(len(owners))) if owners[k] == op[1]]])
+        elif op[0] == 'intruder':
+            mcase.append(['batch', []])
+        else:
+            mcase.append(op)
+        owners = o['owners']
+    return mcase
+
+
+def correspond_procs(res, n):
+    rng = random.Random(res.seed * 31337 + 22)
+    cases = BOUNDARY_PROCS + [gen_procs_case(rng) for _ in range(n)]
+    outs = []
+    for ch in core.chunks(cases, 25):
+        outs += core.run_driver('mgr_driver.py', dict(mode='procs', cases=ch), timeout=1500)
+    terms = [client_case_term(procs_to_model(c, o[:-1]), o[:-1]) for c, o in zip(cases, outs)]
+    codes = dict(core.coq_eval('C20p', CHEADER, core.chunks(terms, 60))[0])
+    late = []
+    hist = {}
+    for i, (c, o) in enumerate(zip(cases, outs)):
+        for op, ob in zip(c, o[:-1]):
+            hist[op[0]] = hist.get(op[0], 0) + 1
+            if op[0] == 'intruder' and ob['obs'] != ['ok']:
+                res.alarms.append(dict(signature='C20:intruder-served',
+                                       what='a client without the manager key was served', replay=dict(mode='procs', case=c)))
+            if ob['numobj'] != len(ob['snap']):
+                res.alarms.append(dict(signature='C20:number-of-objects-wrong',
+                                       what='number_of_objects() = %s, debug_info shows %d' % (ob['numobj'], len(ob['snap'])),
+                                       replay=dict(mode='procs', case=c)))
+        code = codes.get(i, 0)
+        rp = dict(mode='procs', case=c, impl=o)
+        if code == 2:
+            res.alarms.append(dict(signature='C20:real-processes-differ-from-model',
+                                   what='real manager process + client processes differ from the proved model on %s'
+                                        % json.dumps(c)[:600], replay=rp))
+        elif code == 5:
+            late.append(dict(signature='C20:proxy-result-via-unpickled-proxy-fails-and-leaks',
+                             what='(real processes) proxy-returning method through a proxy in a child process: '
+                                  'AttributeError in the caller and %d referents left after every process released '
+                                  'its proxies' % o[-1]['final_objects'], replay=rp))
+        elif code:
+            res.broken.append(dict(kind='correspondence', name='real processes: check_client_case code %d' % code,
+                                   detail=json.dumps(rp)[:1500]))
+        elif o[-1]['final_objects']:
+            res.alarms.append(dict(signature='C20:referent-survives-all-proxies',
+                                   what='(real processes) %d referents left after every proxy was released'
+                                        % o[-1]['final_objects'], replay=rp))
+    res.add_cov(evaluations=len(cases), distinct=len({json.dumps(c) for c in cases}), traces=len(cases),
+                rule='real processes: a real manager server process, two pre-started client processes and up to two '
+                     'forked with live proxies; proxies passed by pickling, dropped in random orders, orderly '
+                     'process exit, wrong-key and no-key intruders; tables read through debug_info()',
+                procs_histogram=hist)
+    return late
+
+
 def run(res):
     res.proof_step('Props/C20.v', extra_targets=['Model/Manager.vo'], kernels_needed=['G_manager'])
     n = 150 if res.tier == 'quick' else 6000
     if res.broken:
         n = max(n, 1500)
     late = correspond_server(res, n)
-    late += correspond_client(res, n)
-    res.alarms += late
-    res.assumptions += ['TODO']
+    late += correspond_client(res, 40 if res.tier == 'quick' and not res.broken else n // 3)
+    if res.tier != 'quick':
+        late += correspond_procs(res, 25)
+    # defects of the unchanged tree (see docs/C20.md): one alarm per signature, smallest witness,
+    # after everything else so that a new problem is reported first
+    best = {}
+    for a in late:
+        size = len(json.dumps(a['replay']['case']))
+        if a['signature'] not in best or size < best[a['signature']][0]:
+            best[a['signature']] = (size, a)
+    res.alarms += [best[k][1] for k in sorted(best)]
+    res.assumptions += [
+        'requests are interleaved at request grain: one Server method call / one serve_client iteration is atomic '
+        '(rests on the GIL, the RLock in create/incref/decref and C-level container methods; not modelled)',
+        'id(obj) of a new referent is non-zero and differs from the idents of live referents (CPython addresses)',
+        'referents: list, dict (int keys/values), managers.Value, list iterators and a harness list subclass with '
+        'proxy-returning methods; a subset of their methods (34 names); other registered types (Namespace, Array, '
+        'Lock, Queue, Pool ...) only through the generic dispatch theorems',
+        'pickling of requests/replies, finaliser timing (CPython refcounting runs BaseProxy._decref at the last '
+        'reference), socket transport and the HMAC itself (C18) are outside the model',
+        'a client process that is killed never releases its proxies (no theorem claims otherwise)',
+    ]
 
 
 def replay(path):
